@@ -32,7 +32,8 @@ THRESHOLDS = {
     "angular_spacing_vs_coordinates": 4.0,   # in-range, unwrapped near (-2n-1..3n) and far offsets
     "neighbor_distances_vs_coordinates": 4.0,
 }
-MIN_NONTRIVIAL = {"quick": 120, "thorough": 200}
+# measured: 479 (quick, every seed) / 635 (thorough) distinct non-trivial signatures
+MIN_NONTRIVIAL = {"quick": 350, "thorough": 450}
 
 RULE = ("cases drawn from VERIF_SEED: 90% coordinate arrays (nr = 2,3,4,5 with 14% weight, 2^k+1 (3..33 [129 thorough]) "
         "28%, 6..8 8%, else 6..40 [192]; ntheta even: power of two 2..128 [1024] (40%), multiple of 4 or any even number "
@@ -43,8 +44,8 @@ RULE = ("cases drawn from VERIF_SEED: 90% coordinate arrays (nr = 2,3,4,5 with 1
         "[6], ntheta_exp -1..6 [8], divideBy2 0..2); every grid of the coarsening chain down to the last grid the "
         "constructor accepts (nr odd >= 3, ntheta multiple of 4) is checked like the fine one: ALL nodes, all angular "
         "offsets in +-5 ntheta, 90 far offsets (random in +-2^30, far multiples of ntheta +-1, +-2^30 +-1, "
-        "INT_MIN/INT_MAX +-1); signature = (nr class [2,3,4,5,6-8,9-16,17-32,33+], ntheta power of two?, split class "
-        "[7], source, number of grids in the chain capped at 4); non-trivial = grid constructed, both the circle and the "
+        "INT_MIN/INT_MAX +-1); signature = (nr class [2,3,4,5,6-8,9-16,17-32,33+], ntheta power of two?, ntheta "
+        "class [2,4,6-16,18-64,66-256,258+], split class [7], source, number of grids in the chain capped at 4); non-trivial = grid constructed, both the circle and the "
         "radial section non-empty, at least 12 nodes")
 ASSUMPTIONS = [
     "expected neighbour / spacing / wrap values are computed in the harness from the input coordinate arrays only; "
